@@ -151,6 +151,53 @@ def elimForksStableIn (skip : Bool) (order : List String) (nn : NNet) : Option N
 /-- the repaired tree (patches 03 + 06) -/
 def elimForksStable (nn : NNet) : Option NNet := elimForksStableIn true nn.forkNames nn
 
+/-! ### `eliminate_1to1_forks` with the renaming of lines and nodes it performs
+`IndexList.__delitem__` renumbers: the last line / node object gets the index of the deleted one.  `Ren` records, for a
+result, which index every surviving object had before: `line l'` = index before of the line that now has index `l'`
+(meaningful for `l'` below the new number of lines), `node j'` likewise. -/
+structure Ren where
+  line : Nat → Nat
+  node : Nat → Nat
+
+def Ren.id : Ren := ⟨fun l => l, fun j => j⟩
+/-- `first` is performed before `second` -/
+def Ren.comp (first second : Ren) : Ren := ⟨fun l => first.line (second.line l), fun j => first.node (second.node j)⟩
+/-- deleting line `b` and node `i` of `nn` with swap-with-last -/
+def stepRen (nn : NNet) (i b : Nat) : Ren :=
+  ⟨fun l => if l = b then nn.net.lines.size - 1 else l, fun j => if j = i then nn.net.nodes.size - 1 else j⟩
+
+/-- `elimOne` together with the index maps of the step (same case analysis) -/
+def elimOneM (skip : Bool) (nn : NNet) (i : Nat) : Option (NNet × Ren) :=
+  let n := nn.net.node i
+  if nn.net.io.contains i then some (nn, Ren.id)
+  else if n.outs.length != 1 then some (nn, Ren.id)
+  else match n.ins.head?, n.outs.head? with
+    | some (some a), some (some b) => if a == b then none else (elimOne skip nn i).map fun r => (r, stepRen nn i b)
+    | some (some _), _ => none
+    | _, _ => if skip then some (nn, Ren.id) else none
+
+def elimForksInM (skip : Bool) (order : List String) (nn : NNet) : Option (NNet × Ren) :=
+  order.foldlM (fun (s : NNet × Ren) name =>
+    let i := s.1.lookup (name, true)
+    if i < s.1.net.nodes.size then (elimOneM skip s.1 i).map fun p => (p.1, s.2.comp p.2) else some s) (nn, Ren.id)
+
+/-- a labelling of the lines of the result: every surviving line keeps its value -/
+def relabel {α} (r : Ren) (nn' : NNet) (v : Array α) (z : α) : Array α :=
+  (Array.range nn'.net.lines.size).map fun l => v.getD (r.line l) z
+/-- the assignment (indexed by `s_nodes` position) seen from the result: position `p'` of the result holds the node
+    that stood at position `idxOf …` before -/
+def sigma (r : Ren) (nn nn' : NNet) (p' : Nat) : Nat := nn.net.sNodes.idxOf (r.node (nn'.net.sNodes.getD p' 0))
+def reassign {α} (r : Ren) (nn nn' : NNet) (asg : Nat → α) : Nat → α := fun p' => asg (sigma r nn nn' p')
+
+/-- every fork has at most one input pin (forks are 1:n; `Line` never connects a second input to a fork) -/
+def NNet.forkIns1 (nn : NNet) : Bool :=
+  (List.range nn.net.nodes.size).all fun i => !(nn.net.node i).isFork || decide ((nn.net.node i).ins.length ≤ 1)
+
+/-- what a node reads at pin `k` under a labelling (`none` = unconnected) -/
+def pinRead {α} (net : Net) (v : Array α) (z : α) (n k : Nat) : Option α := ((net.node n).inPin k).map fun l => v.getD l z
+/-- the captured values in `s_nodes` order (what `evalCapturesG` returns for the evaluator's labelling) -/
+def capturesOf {α} (net : Net) (v : Array α) (z : α) : List (Option α) := net.sNodes.map fun n => pinRead net v z n 0
+
 /-! ### observables -/
 def NNet.ioNames (nn : NNet) : List String := nn.net.io.map fun i => nn.names.getD i ""
 /-- `[n.name for n in c.s_nodes]` -/
